@@ -307,26 +307,26 @@ func init() {
 // levelExtra: parts added to the checks after the seed rounds 3 and 4 (DESIGN.md section 3, "Extensions"); appended to
 // LevelText so that MANIFEST.json describes the checks as they are.
 var levelExtra = map[string]string{
-	"C01": "Also: an empty Write while exactly one full chunk is buffered; every Write passes a scratch slice that is overwritten afterwards.",
+	"C01": "Also: an ssh-rsa recipient with a 2049-bit modulus; an empty Write while exactly one full chunk is buffered; every Write passes a scratch slice that is overwritten afterwards.",
 	"C02": "Also: io.Copy as consumer, a source failing once where the original file ended, armored truncations/extensions, appended bytes after the armor END line directly and behind 1024 spaces / 1500 newlines.",
-	"C03": "Also: every edit is decrypted with [opener], [opener, stranger] and (one edit in eight) strangers around the opener; recipient lists include a foreign stanza whose type and arguments contain '---'.",
-	"C04": "Also: reference-built files without any stanza, keyed with the empty, the all-zero and an arbitrary file key, against every identity type alone and in lists.",
-	"C05": "Also: a tape-driven Encrypt after every failed Encrypt (destination failing at write call 0..7); io.Copy from data+EOF and half-delivery sources as producer; passphrase files sharing a salt but not a work factor opened in every order of two and three.",
+	"C03": "Also: nine respellings of every stanza argument (base64 padding appended, other case, doubled, shortened, prefixed); every edit is decrypted with [opener], [opener, stranger] and (one edit in eight) strangers around the opener; recipient lists include a foreign stanza whose type and arguments contain '---'.",
+	"C04": "Also: files with 255, 256, 257, 1024, 1025 and 1100 X25519 recipients against strangers; reference-built files without any stanza, keyed with the empty, the all-zero and an arbitrary file key, against every identity type alone and in lists.",
+	"C05": "Also: reference and corpus files read with a 1 MiB buffer and with io.Copy; a tape-driven Encrypt after every failed Encrypt (destination failing at write call 0..7); io.Copy from data+EOF and half-delivery sources as producer; passphrase files sharing a salt but not a work factor opened in every order of two and three.",
 	"C06": "Also: part faulted-destination - every caller script of <=4 operations over {Write 1, Write ChunkSize, Close} with the destination failing once or for good at payload write 0..5: every buffer handed to the destination opens under exactly one counter nonce and no nonce carries two plaintexts.",
 	"C07": "Also: the caller's own bufio.Reader of 16 and 4095 bytes as input; marshal-edit-marshal histories of one header value (edited in place, stanza pointers replaced, list reassigned; built fresh and returned by Parse); a healthy Marshal after a Marshal whose writer failed at every call.",
-	"C08": "Also: a healthy armoring after an armoring whose destination failed at write call 0..11; 600-4096 bytes of whitespace after the END line followed by garbage or a second block.",
-	"C09": "Also: the last six parsed plugin keys are re-checked after every later parse (aliasing); every two-region case pattern (one case up to each split position, the other after it) of native and plugin strings.",
-	"C10": "Also: an identity that has opened a valid stanza is offered the same salt and body under every refused work-factor spelling; stanza types ending in '-grease' next to the scrypt stanza.",
-	"C11": "Also: declarations with a repeated label (judged where the set and the multiset reading agree); the age command with scripted plugins declaring labels, via -r and -R, with and without -a.",
-	"C12": "Also: every Write passes a scratch slice overwritten afterwards; io.Copy/io.CopyBuffer producers (plain, data+EOF, half, one-byte, bufio); io.Copy and interleaved-decryption consumers; the armor reader alone under 10 read sizes on valid and damaged armor.",
+	"C08": "Also: NBSP, NEL, VT, FF and U+2028 bytes before and after the armor; a healthy armoring after an armoring whose destination failed at write call 0..11; 600-4096 bytes of whitespace after the END line followed by garbage or a second block.",
+	"C09": "Also: native and plugin strings re-encoded with the Bech32m checksum constant; the last six parsed plugin keys are re-checked after every later parse (aliasing); every two-region case pattern (one case up to each split position, the other after it) of native and plugin strings.",
+	"C10": "Also: a refused (panicking, recovered) SetMaxWorkFactor / SetWorkFactor call with 9 illegal values must leave the earlier configuration in force; an identity that has opened a valid stanza is offered the same salt and body under every refused work-factor spelling; stanza types ending in '-grease' next to the scrypt stanza.",
+	"C11": "Also: recipients that return no stanza at all but declare labels; declarations with a repeated label (judged where the set and the multiset reading agree); the age command with scripted plugins declaring labels, via -r and -R, with and without -a.",
+	"C12": "Also: armored files whose last base64 line and whose final chunk are both full (1..16 recipients x 1..3 chunks where the lengths align); every Write passes a scratch slice overwritten afterwards; io.Copy/io.CopyBuffer producers (plain, data+EOF, half, one-byte, bufio); io.Copy and interleaved-decryption consumers; the armor reader alone under 10 read sizes on valid and damaged armor.",
 	"C13": "Also: after every faulted execution a healthy encryption in the same process must produce a complete valid file.",
 	"C14": "Also: files with a full final chunk edited at the tail; strict identities used after lenient ones; cmd/age's own key-file parsers (main hook) on every string of length <=5 (thorough 6) over an options-like alphabet and on one-byte edits of valid lines.",
 	"C15": "Also: -o /dev/null, /dev/stdout and a FIFO; whitespace inserted before a binary header; 10 spellings of the same file incl. non-canonical absolute ones; age-keygen -o naming the existing file through symbolic links.",
 	"C16": "Also: opening lines longer than 4 KiB; secrets of 47-100 bytes as prompt answers; every call into the client runs under a one-minute watchdog and the exploration stops (exhaustive:false, violation) at the first call that never returns.",
-	"C17": "Also: executables installed in the working directory and TMPDIR but not on PATH (library and CLI positions): nothing may start.",
-	"C18": "Also: SSH key lines with leading blanks; keys in which a 'q' is replaced by a character outside the Bech32 alphabet.",
-	"C19": "Also: identity kinds whose key file holds an ECDSA key, a 1024-bit RSA key, and an OpenSSH Ed25519 key whose private and public halves disagree; every call runs under a two-minute watchdog.",
-	"C20": "Also: a history before the threads start (writer closed twice, reader abandoned) and a second Close in every encrypting thread; race pass with an RSA key assembled from its components, a passphrase recipient at its default work factor (scrypt stand-in build) first used inside the goroutines, and concurrent decryption of files with trailing data.",
+	"C17": "Also: plugins placed next to an age binary that is itself run from a directory not on PATH; executables installed in the working directory and TMPDIR but not on PATH (library and CLI positions): nothing may start.",
+	"C18": "Also: keys re-encoded with the Bech32m checksum constant; SSH key lines with leading blanks; keys in which a 'q' is replaced by a character outside the Bech32 alphabet.",
+	"C19": "Also: a key file holding an RSA key with the declared modulus but another public exponent; identity kinds whose key file holds an ECDSA key, a 1024-bit RSA key, and an OpenSSH Ed25519 key whose private and public halves disagree; every call runs under a two-minute watchdog.",
+	"C20": "Also: a passphrase recipient at work factor 20 in the race pass, whose child process runs under a 5-minute watchdog; a history before the threads start (writer closed twice, reader abandoned) and a second Close in every encrypting thread; race pass with an RSA key assembled from its components, a passphrase recipient at its default work factor (scrypt stand-in build) first used inside the goroutines, and concurrent decryption of files with trailing data.",
 }
 
 func init() {
